@@ -225,6 +225,13 @@ func (e *Encoder) Value(v *Value) {
 // Define emits the class definition of x now (hoisting), if not emitted yet.
 func (e *Encoder) Define(x *Value) int { return e.classDef(x) }
 
+// DefineAgain emits the class definition of x once more (legal: every definition takes the
+// next number); later instances of the class use the newest number.
+func (e *Encoder) DefineAgain(x *Value) int {
+	delete(e.classIdx, classSig(x))
+	return e.classDef(x)
+}
+
 // FuncChooser decides by choice-point name.
 type FuncChooser func(point string, n int) int
 
